@@ -138,6 +138,7 @@ func checkC07(p *Prog, r *Report) {
 	if nSt == 0 {
 		r.unresolved(rule, "store to BuildTarget.RuleHash")
 	}
+	p.walkSortedRule(r, "fs/E5.walk-sorted")
 	// state recycled between BUILD evaluations is fully reset
 	rule = "E5.recycled-state-reset"
 	nPut := 0
